@@ -80,4 +80,21 @@ CHECKS = {
                 'the cumulative-input comparison.',
         'technique': 'Coq proof (Coquelicot RInt, Chasles; Z-arithmetic for the table) + exact vm_compute and CoqInterval correspondence via a solver substitute',
     },
+    'C12': {
+        'text': 'Machine-checked proof (Properties/C12.v) over a cell-level real-valued model of the five population '
+                'filters: each score is the sum over non-missing measurements of the documented log-density (Gaussian, '
+                'log-normal, Gaussian / log-normal KDE with the rule-of-thumb bandwidth, equal-weight Gaussian mixture '
+                'over consecutive blocks) with the documented empirical estimates; the logsumexp max-shift cancels; '
+                'permuting measured individuals leaves every score unchanged; the Gaussian filter\'s sensitivity is the '
+                'derivative (is_derive) w.r.t. any simulated measurement for any cell size. Tied to /repo on every run: '
+                'scores and gradient entries of the real filter classes (incl. ComposedPopulationFilter and sort_times '
+                'with non-involutive orders, missing values) certified by CoqInterval; padding / permutation / time '
+                're-ordering invariance checked directly. PARTIAL: the is_derive theorems for the log-normal, KDE and '
+                'mixture gradients are not proved (their formulas are tied numerically and searched with finite '
+                'differences).',
+        'note': 'Trusted: Coq kernel, stdlib, Coquelicot, CoqInterval, ' + STD_AXIOMS + '; hand-written Model/Filters.v; the '
+                'harness maps chi\'s (individual, observable, time) arrays with NaNs and the time order onto cells; '
+                'two fix: commits (log-normal KDE Jacobian, docstring) precede this check.',
+        'technique': 'Coq proof (Coquelicot is_derive, ln/exp algebra) + CoqInterval-certified correspondence',
+    },
 }
